@@ -59,6 +59,18 @@ def handle(c):
         L_rep = ints(rep_k[-1].stop_index - e.start_index + 1)      # repetition kernels only (an extra probe size)
         sizes = [c['reps'] * L, c['reps'] * L + 1, c['reps'] * L_rep, c['reps'] * L_rep + 1] + [int(s) for s in c.get('sizes', [])]
         return {'L': L, 'sizes': sizes, 'ests': [estimate(c, s) for s in sizes]}
+    if c['k'] == 'big':
+        # a very large experiment: only the rows of a few selected repetitions are reported (see C12/Run.v CBig)
+        q = qid(c['q'])
+        e = RepetitionExperimentKernel(rounds=list(c['rounds']), heralded_initialization=c['h'], qutrit_calibration_points=c['c'],
+                                       involved_data_qubit_ids=data, involved_ancilla_qubit_ids=anc, experiment_repetitions=c['reps'])
+        L = ints(e.kernel_cycle_length)
+        arrs = [e.get_heralded_cycle_acquisition_indices(q, c['n']), e.get_stabilizer_and_projected_cycle_acquisition_indices(q, c['n']),
+                e.get_projected_cycle_acquisition_indices(q, c['n'])]
+        b = (2 ** 31) // L
+        sel = sorted({i for i in (0, 1, c['reps'] // 2, b - 1, b, b + 1, c['reps'] - 1) if 0 <= i < c['reps']})
+        return {'start': ints(e.start_index), 'stop': ints(e.stop_index), 'L': L, 'nrows': [int(len(a)) for a in arrs],
+                'rows': [[i, [[int(x) for x in a[i]] for a in arrs]] for i in sel]}
     q = qid(c['q'])
     e = RepetitionExperimentKernel(rounds=list(c['rounds']), heralded_initialization=c['h'], qutrit_calibration_points=c['c'],
                                    involved_data_qubit_ids=data, involved_ancilla_qubit_ids=anc, experiment_repetitions=c['reps'])
